@@ -3,7 +3,7 @@
    steps of any number of threads, applier / sweep steps, clock and estimate changes); keys are (hash, conflict)
    pairs, so the theorems hold for every key-hash function and every key set, colliding or not. *)
 From stdpp Require Import gmap.
-From Ristretto Require Import Base.Word Cache.Policy Cache.Store Cache.Machine Cache.MachineProofs.
+From Ristretto Require Import Base.Word Base.Xxhash Cache.KeyHash Cache.Policy Cache.Store Cache.Machine Cache.MachineProofs.
 Local Open Scope Z_scope.
 
 (* the log is newest-first: in  l1 ++ e :: l2  the events of l2 happened before e *)
@@ -34,6 +34,26 @@ Proof.
   - auto.
 Qed.
 
+(* The pairs themselves (z.KeyToHash, Cache/KeyHash.v; memhash, seeded per process by the Go runtime, is a parameter).
+   Integer keys: conflict hash 0 and a primary hash that identifies the key within its kind - so for integer keys
+   C01_provenance says "written under that very key", with no collision caveat at all. *)
+Theorem C01_int_keys_exact : forall memhash n1 n2 kd v1 v2, in_range kd v1 -> in_range kd v2 ->
+  fst (key_to_hash memhash n1 (HInt kd v1)) = fst (key_to_hash memhash n2 (HInt kd v2)) -> v1 = v2.
+Proof. exact int_keys_exact. Qed.
+
+Theorem C01_int_keys_conflict0 : forall memhash n kd v, snd (key_to_hash memhash n (HInt kd v)) = 0%N.
+Proof. exact int_keys_conflict0. Qed.
+
+(* string / []byte keys, plain or of a defined type: both hashes are functions of the contents alone; the conflict hash
+   is XXH64(contents) (Base/Xxhash.v, checked against the published vectors and, on every run, against the code), a
+   64-bit value independent of the process seed.  Two keys are told apart exactly when their contents differ in
+   memhash or in XXH64: the residual risk is a simultaneous collision of both, which the property's "conflict hashes
+   differ" premise excludes. *)
+Theorem C01_content_keys : forall memhash n1 n2 b,
+  key_to_hash memhash n1 (HStr b) = (memhash b, xxh64 b) /\
+  key_to_hash memhash n2 (HBytes b) = (memhash b, xxh64 b) /\ (xxh64 b < two64)%N.
+Proof. intros. split; [reflexivity|]. split; [reflexivity|apply xxh64_lt]. Qed.
+
 (* Non-vacuity: a schedule in which a Get hits. *)
 Definition c01_cfg : cfg :=
   {| c_cap := 4; c_bdur := 5; c_ignore_internal := true; c_item_size := 56; c_should := fun _ _ => true;
@@ -47,3 +67,6 @@ Proof. vm_compute. eauto. Qed.
 
 Print Assumptions C01_provenance.
 Print Assumptions C01_no_cross_key.
+Print Assumptions C01_int_keys_exact.
+Print Assumptions C01_int_keys_conflict0.
+Print Assumptions C01_content_keys.
